@@ -1,14 +1,17 @@
 //! unit: u20
 //! properties: C20
+//! novaclemmas: lemma hypotheses here are index ranges and existence of ancestors only
 //! note: lightning-block-sync: check_builds_on refuses headers that do not connect; find_difference_from_header returns a common ancestor of both tips and a parent-linked chain of new blocks
 //! trusted: BlockHash is an opaque identity (u64 stand-in; equality is identity, hash collisions excluded); Work / Target / Header are stubs whose ==, +, <, > follow the PartialEqSpecImpl/AddSpecImpl/PartialOrdSpecImpl models declared here; Header::work()/target() and Target::*_transition_threshold* are external_body with unconstrained results; BlockSourceError::persistent is an external_body constructor
 //! trusted: HeaderCache::look_up returns a well-formed header of the requested hash (cache invariant, assumed); the Poll implementation is instantiated (R5) by a stub Poller whose look_up_previous_header returns a header that passed check_builds_on against `header` (that is what ChainPoller does)
+//! trusted: listener part: ChainNotifier is instantiated (R5) as Notifier { header_cache, chain_listener: &mut Listener } (the real field is a shared reference to a listener with interior state); the Listener stub carries the ghost field `tip` and the trace preconditions; HeaderCache::{blocks_disconnected, block_connected} external_body (no effect on the listener); Poller::fetch_block returns a block whose hash is the requested header's (ChainPoller validates it); `drain(..).rev()` rewritten into pop() (R6); find_difference_from_header restated as an external_body callee contract in the Notifier impl (it is verified, same text, in the ChainNotifier impl above)
 //! assume: the served block tree is consistent: one parent and one height per block hash (parent_of/height_of uninterpreted)
 //! assume: termination of the walk is not claimed (needs a genesis assumption): partial correctness only
 use vstd::prelude::*;
 verus! {
 use vstd::std_specs::cmp::*;
 use vstd::std_specs::ops::*;
+use core::ops::Deref;
 // ---- env ----
 #[derive(Clone, Copy)] pub struct BlockHash(pub u64);
 impl PartialEqSpecImpl for BlockHash { open spec fn obeys_eq_spec() -> bool { true } open spec fn eq_spec(&self, other: &BlockHash) -> bool { self.0 == other.0 } }
@@ -182,6 +185,178 @@ impl<'a> ChainNotifier<'a> {
     connected_blocks.push(current); current =
 //@with
     current =
+//@end
+}
+
+
+// ---------------- listener notifications: the listener is always moved along ONE chain (trace preconditions on the listener stub) ----------------
+pub struct Block {} pub struct BlockLocator { pub block_hash: BlockHash, pub height: u32 }
+impl BlockLocator { pub fn new(block_hash: BlockHash, height: u32) -> (r: Self) ensures r.block_hash == block_hash, r.height == height { BlockLocator { block_hash, height } } }
+pub uninterp spec fn hash_of_block(b: Block) -> BlockHash;
+pub uninterp spec fn hash_of_header(h: Header) -> BlockHash;
+pub enum BlockData { FullBlock(Block), HeaderOnly(Header) }
+pub open spec fn hash_of_data(d: BlockData) -> BlockHash { match d { BlockData::FullBlock(b) => hash_of_block(b), BlockData::HeaderOnly(h) => hash_of_header(h) } }
+pub struct ValidatedBlock { pub block_hash: BlockHash, pub inner: BlockData }
+impl core::ops::Deref for ValidatedBlock { type Target = BlockData; fn deref(&self) -> (r: &BlockData) ensures *r == self.inner { &self.inner } }
+// the chain listener: `tip` is the block it was last told about.  (P) trace obligations every notification must discharge:
+pub struct Listener { pub tip: Ghost<BlockHash> }
+impl Listener {
+    #[verifier::external_body]
+    pub fn blocks_disconnected(&mut self, fork_point: BlockLocator)
+        requires is_ancestor(fork_point.block_hash, old(self).tip@), fork_point.height as int == height_of(fork_point.block_hash)   // disconnection back to an ancestor
+        ensures final(self).tip@ == fork_point.block_hash
+    { unimplemented!() }
+    #[verifier::external_body]
+    pub fn block_connected(&mut self, block: &Block, height: u32)
+        requires parent_of(hash_of_block(*block)) == old(self).tip@, height as int == height_of(old(self).tip@) + 1         // each new block builds on the previous notification, in ascending height order
+        ensures final(self).tip@ == hash_of_block(*block)
+    { unimplemented!() }
+    #[verifier::external_body]
+    pub fn filtered_block_connected(&mut self, header: &Header, txdata: &[u8; 0], height: u32)
+        requires parent_of(hash_of_header(*header)) == old(self).tip@, height as int == height_of(old(self).tip@) + 1
+        ensures final(self).tip@ == hash_of_header(*header)
+    { unimplemented!() }
+}
+impl HeaderCache {
+    #[verifier::external_body] pub fn blocks_disconnected(&mut self, fork_point: &ValidatedBlockHeader) { unimplemented!() }
+    #[verifier::external_body] pub fn block_connected(&mut self, block_hash: BlockHash, block_header: ValidatedBlockHeader) { unimplemented!() }
+}
+impl Poller {
+    #[verifier::external_body]
+    async fn fetch_block(&mut self, header: &ValidatedBlockHeader) -> (r: BlockSourceResult<ValidatedBlock>)
+        ensures r is Ok ==> r->Ok_0.block_hash == header.block_hash && hash_of_data(r->Ok_0.inner) == header.block_hash     // ChainPoller validates the block against the header
+    { unimplemented!() }
+}
+impl PartialEqSpecImpl for ValidatedBlockHeader { open spec fn obeys_eq_spec() -> bool { true } open spec fn eq_spec(&self, other: &ValidatedBlockHeader) -> bool { *self == *other } }
+impl PartialEq for ValidatedBlockHeader { #[verifier::external_body] fn eq(&self, o: &ValidatedBlockHeader) -> (r: bool) { unimplemented!() } }
+pub struct Notifier<'a> { pub header_cache: &'a mut HeaderCache, pub chain_listener: &'a mut Listener }
+
+impl<'a> Notifier<'a> {
+    // find_difference_from_header is verified above (same text, ChainNotifier skeleton without the listener); restated here as the callee contract
+    #[verifier::external_body]
+	async fn find_difference_from_header(&self, current_header: ValidatedBlockHeader, prev_header: &ValidatedBlockHeader, chain_poller: &mut Poller) -> (r: BlockSourceResult<ChainDifference>)
+        requires wf(current_header), wf(*prev_header)
+        ensures r is Ok ==> ({ let d = r->Ok_0;
+            &&& is_ancestor(d.common_ancestor.block_hash, current_header.block_hash)
+            &&& is_ancestor(d.common_ancestor.block_hash, prev_header.block_hash)
+            &&& wf(d.common_ancestor)
+            &&& linked(d.connected_blocks@, current_header.block_hash, d.common_ancestor.block_hash) })
+    { unimplemented!() }
+
+//@extract lightning-block-sync/src/lib.rs :: impl ChainNotifier :: fn disconnect_blocks
+//@requires
+    is_ancestor(fork_point.block_hash, old(self).chain_listener.tip@), wf(fork_point),
+//@ensures A listener-is-moved-back-to-the-fork-point
+    final(self).chain_listener.tip@ == fork_point.block_hash
+//@end
+
+//@extract lightning-block-sync/src/lib.rs :: impl ChainNotifier :: fn connect_blocks
+//@rw R5
+    <P: Poll>
+//@with
+//@rw R5
+    &mut P
+//@with
+    &mut Poller
+//@rw R5
+    mut new_tip: ValidatedBlockHeader, mut connected_blocks: Vec<ValidatedBlockHeader>,
+//@with
+    new_tip_in: ValidatedBlockHeader, connected_blocks_in: Vec<ValidatedBlockHeader>,
+//@at body_start
+    // R5: by-value `mut` parameters re-bound as mutable locals (Verus has no `mut` parameters)
+    let mut new_tip = new_tip_in; let mut connected_blocks = connected_blocks_in;
+//@rw R6
+    for header in connected_blocks.drain(..).rev() { $body:any }
+//@with
+    // R6: `for header in v.drain(..).rev()` = take the elements from the last to the first
+    let ghost top = if connected_blocks@.len() > 0 { connected_blocks@[0].block_hash } else { new_tip.block_hash };
+    while connected_blocks.len() > 0
+        invariant self.chain_listener.tip@ == new_tip.block_hash, linked(connected_blocks@, top, new_tip.block_hash), wf(new_tip),
+        ensures self.chain_listener.tip@ == new_tip.block_hash, connected_blocks@.len() == 0, new_tip.block_hash == top,
+        decreases connected_blocks@.len()
+    {
+        let ghost before = connected_blocks@;
+        let header = connected_blocks.pop().unwrap();
+        proof {
+            assert(header == before[before.len() - 1]);
+            assert(wf(header));
+            assert(connected_blocks@ =~= before.take(before.len() - 1));
+        }
+        $body
+        proof { assert(linked(connected_blocks@, top, new_tip.block_hash)); }
+    }
+//@ret r
+//@requires
+    old(self).chain_listener.tip@ == new_tip_in.block_hash, wf(new_tip_in),
+    linked(connected_blocks_in@, if connected_blocks_in@.len() > 0 { connected_blocks_in@[0].block_hash } else { new_tip_in.block_hash }, new_tip_in.block_hash),
+//@ensures P C20 blocks-are-connected-one-by-one-each-on-top-of-the-previous-notification-and-an-error-reports-where-the-listener-stopped
+    r is Ok ==> final(self).chain_listener.tip@ == (if connected_blocks_in@.len() > 0 { connected_blocks_in@[0].block_hash } else { new_tip_in.block_hash }),
+    r is Err ==> r->Err_0.1 is Some && final(self).chain_listener.tip@ == r->Err_0.1->Some_0.block_hash && wf(r->Err_0.1->Some_0),
+//@rw R8
+    .map_err(|e| (e, Some(new_tip)))
+//@with
+    .map_err(|e: BlockSourceError| -> (o: (BlockSourceError, Option<ValidatedBlockHeader>)) ensures o.1 == Some(new_tip) { (e, Some(new_tip)) })
+//@mutant tip_not_advanced_after_connecting
+    new_tip = header;
+//@with
+    let _ = header;
+//@end
+
+//@extract lightning-block-sync/src/lib.rs :: impl ChainNotifier :: fn synchronize_listener
+//@rw R5
+    <P: Poll>
+//@with
+//@rw R5
+    &mut P
+//@with
+    &mut Poller
+//@rw R8
+    .map_err(|e| (e, None))
+//@with
+    .map_err(|e: BlockSourceError| -> (o: (BlockSourceError, Option<ValidatedBlockHeader>)) ensures o.1 is None { (e, None) })
+//@ret r
+//@requires
+    old(self).chain_listener.tip@ == old_header.block_hash, wf(new_header), wf(*old_header),
+//@ensures P C20 listener-ends-on-the-new-tip-or-exactly-where-the-error-says
+    r is Ok ==> final(self).chain_listener.tip@ == new_header.block_hash,
+    r is Err && r->Err_0.1 is Some ==> final(self).chain_listener.tip@ == r->Err_0.1->Some_0.block_hash,
+    r is Err && r->Err_0.1 is None ==> final(self).chain_listener.tip@ == old(self).chain_listener.tip@,
+//@end
+}
+
+// R5 glue (trusted): `Notifier { header_cache: &mut a, chain_listener: &mut b }.synchronize_listener(..)` as a function of the two borrows, with
+// synchronize_listener's verified contract restated on the borrow (this Verus version does not resolve `&mut` borrows stored in a struct when the struct dies)
+#[verifier::external_body]
+async fn synchronize_listener_via_notifier(header_cache: &mut HeaderCache, chain_listener: &mut Listener, new_header: ValidatedBlockHeader, old_header: &ValidatedBlockHeader, chain_poller: &mut Poller)
+    -> (r: Result<(), (BlockSourceError, Option<ValidatedBlockHeader>)>)
+    requires old(chain_listener).tip@ == old_header.block_hash, wf(new_header), wf(*old_header),
+    ensures
+        r is Ok ==> final(chain_listener).tip@ == new_header.block_hash,
+        r is Err && r->Err_0.1 is Some ==> final(chain_listener).tip@ == r->Err_0.1->Some_0.block_hash,
+        r is Err && r->Err_0.1 is None ==> final(chain_listener).tip@ == old(chain_listener).tip@,
+{ unimplemented!() }
+pub struct SpvClient { pub chain_tip: ValidatedBlockHeader, pub chain_poller: Poller, pub header_cache: HeaderCache, pub chain_listener: Listener }
+impl SpvClient {
+//@extract lightning-block-sync/src/lib.rs :: impl SpvClient :: fn update_chain_tip
+//@rw R5
+    let mut chain_notifier = ChainNotifier { header_cache: &mut self.header_cache, chain_listener: &*self.chain_listener, }; match chain_notifier .synchronize_listener($args) .await
+//@with
+    match synchronize_listener_via_notifier(&mut self.header_cache, &mut self.chain_listener, $args).await
+//@rw R7
+    Err((_, Some(chain_tip))) if $g => { $b:any }, Err(_) => $f,
+//@with
+    // R7 (guard lowering; this Verus version mis-handles a match guard whose arm assigns through `self`): the only later arm that can
+    // match an `Err((_, Some(_)))` value is `Err(_)`, whose body is repeated in the else branch
+    Err((_, Some(chain_tip))) => { if $g { $b } else { $f } }, Err(_) => $f,
+//@ret r
+//@requires
+    old(self).chain_tip.block_hash == old(self).chain_listener.tip@, wf(old(self).chain_tip), wf(best_chain_tip),
+//@ensures P C20 the-client's-recorded-tip-is-always-where-its-listener-is-also-after-a-source-error
+    final(self).chain_tip.block_hash == final(self).chain_listener.tip@,
+//@mutant partial_progress_forgotten_unless_more_work
+    if chain_tip.block_hash != self.chain_tip.block_hash =>
+//@with
+    if chain_tip.inner.height > self.chain_tip.inner.height =>
 //@end
 }
 
